@@ -15,7 +15,11 @@
      - run exit OnSignal (returns nil / a cancellation error once signalled or its context is
        cancelled), Free (may return anything at any time), Never.
    [fix_c09] selects the candidate repair hooks/fix-c09-composite-stop-during-reload.patch
-   (Run takes reloadMu around its stopAllRunnables); [fix_c11] the one for hasMembershipChanged. *)
+   (Run takes reloadMu around its stopAllRunnables), committed as /repo 82de565; [fix_c11] the one for
+   hasMembershipChanged (/repo 5b52fc2); [fix_stale] the candidate repair
+   hooks/fix-c09-composite-stale-stop.patch (every boot has its own context and goroutine group;
+   stopAllRunnables, after the Stop() calls returned, cancels that context and waits for the
+   goroutines of the generation). *)
 From Coq Require Import List NArith Bool.
 From GS Require Import Errs.
 Import ListNotations.
@@ -27,7 +31,7 @@ Inductive rexit := OnSignal | Free | Never.
 Inductive rkind := RWC | RPlain | RNone.   (* has ReloadWithConfig / only Reload / neither *)
 
 Record cspec := mkSpec { c_name : N; c_stop : sstyle; c_exit : rexit; c_rk : rkind }.
-Record params := mkParams { pool : list cspec; fix_c09 : bool; fix_c11 : bool }.
+Record params := mkParams { pool : list cspec; fix_c09 : bool; fix_c11 : bool; fix_stale : bool }.
 
 Definition default_spec : cspec := mkSpec 0%N NonBlocking OnSignal RNone.
 Definition spec_of (P : params) (c : N) : cspec := nth (N.to_nat c) (pool P) default_spec.
@@ -88,7 +92,7 @@ Inductive wpc := WNew | WCalled | WUnblocked | WDone.
 Record worker := mkWorker { w_owner : owner; w_child : N; w_pc : wpc }.
 
 Inductive rpc :=
-| RCalled | RCb | RInPlaceSet | RInPlace (i : nat) | RStopBegin | RStopWait | RSetCfg
+| RCalled | RCb | RInPlaceSet | RInPlace (i : nat) | RStopBegin | RStopWait | RStopDrain | RSetCfg
 | RBootLock | RBootLaunch | RFinish | RRet | RDone.
 Inductive rpath := PNone | PFailedFsm | PFailedCb | PInPlace | PRestart.
 Record reloader := mkRel {
@@ -100,7 +104,7 @@ Inductive spc := SCalled | SWaiting | SDone.
 
 Inductive tpc :=
 | TIdle | TCalled | TBootLock | TBootCb | TBootLaunch | TToRunning | TSelect | TTransIf
-| TTearLock | TStopBegin | TStopWait | TToStopped
+| TTearLock | TStopBegin | TStopWait | TStopDrain | TToStopped
 | TRet (r : oerr)      (* result computed; deferred runCancel()/done() not yet run *)
 | TOut (r : oerr)      (* deferred calls done; the caller has not yet observed the return *)
 | TDone (r : oerr).
@@ -121,6 +125,7 @@ Record state := mkState {
   errq : list err;                   (* serverErrors *)
   errcap : nat;
   gen : nat;                         (* number of boots so far *)
+  gen_cancelled : nat;               (* boots whose own context has been cancelled (fix_stale) *)
   kids : list kid;
   workers : list worker;
   sigs : list N;                     (* children whose stop signal is set *)
@@ -132,29 +137,30 @@ Record state := mkState {
 }.
 
 Definition init : state :=
-  mkState FNew None false false false false TIdle None None None [] 1 0 [] [] [] [] [] None false false.
+  mkState FNew None false false false false TIdle None None None [] 1 0 0 [] [] [] [] [] None false false.
 
-Definition set_fsm v s := mkState v (cfg s) (pctx s) (rctx s) (lc_stopped s) (lc_done s) (runt s) (took s) (reload_mu s) (run_mu s) (errq s) (errcap s) (gen s) (kids s) (workers s) (sigs s) (reloaders s) (stoppers s) (last_cb s) (fail_sent s) (oops s).
-Definition set_cfg v s := mkState (fsm s) v (pctx s) (rctx s) (lc_stopped s) (lc_done s) (runt s) (took s) (reload_mu s) (run_mu s) (errq s) (errcap s) (gen s) (kids s) (workers s) (sigs s) (reloaders s) (stoppers s) (last_cb s) (fail_sent s) (oops s).
-Definition set_pctx v s := mkState (fsm s) (cfg s) v (rctx s) (lc_stopped s) (lc_done s) (runt s) (took s) (reload_mu s) (run_mu s) (errq s) (errcap s) (gen s) (kids s) (workers s) (sigs s) (reloaders s) (stoppers s) (last_cb s) (fail_sent s) (oops s).
-Definition set_rctx v s := mkState (fsm s) (cfg s) (pctx s) v (lc_stopped s) (lc_done s) (runt s) (took s) (reload_mu s) (run_mu s) (errq s) (errcap s) (gen s) (kids s) (workers s) (sigs s) (reloaders s) (stoppers s) (last_cb s) (fail_sent s) (oops s).
-Definition set_lc_stopped v s := mkState (fsm s) (cfg s) (pctx s) (rctx s) v (lc_done s) (runt s) (took s) (reload_mu s) (run_mu s) (errq s) (errcap s) (gen s) (kids s) (workers s) (sigs s) (reloaders s) (stoppers s) (last_cb s) (fail_sent s) (oops s).
-Definition set_lc_done v s := mkState (fsm s) (cfg s) (pctx s) (rctx s) (lc_stopped s) v (runt s) (took s) (reload_mu s) (run_mu s) (errq s) (errcap s) (gen s) (kids s) (workers s) (sigs s) (reloaders s) (stoppers s) (last_cb s) (fail_sent s) (oops s).
-Definition set_runt v s := mkState (fsm s) (cfg s) (pctx s) (rctx s) (lc_stopped s) (lc_done s) v (took s) (reload_mu s) (run_mu s) (errq s) (errcap s) (gen s) (kids s) (workers s) (sigs s) (reloaders s) (stoppers s) (last_cb s) (fail_sent s) (oops s).
-Definition set_took v s := mkState (fsm s) (cfg s) (pctx s) (rctx s) (lc_stopped s) (lc_done s) (runt s) v (reload_mu s) (run_mu s) (errq s) (errcap s) (gen s) (kids s) (workers s) (sigs s) (reloaders s) (stoppers s) (last_cb s) (fail_sent s) (oops s).
-Definition set_reload_mu v s := mkState (fsm s) (cfg s) (pctx s) (rctx s) (lc_stopped s) (lc_done s) (runt s) (took s) v (run_mu s) (errq s) (errcap s) (gen s) (kids s) (workers s) (sigs s) (reloaders s) (stoppers s) (last_cb s) (fail_sent s) (oops s).
-Definition set_run_mu v s := mkState (fsm s) (cfg s) (pctx s) (rctx s) (lc_stopped s) (lc_done s) (runt s) (took s) (reload_mu s) v (errq s) (errcap s) (gen s) (kids s) (workers s) (sigs s) (reloaders s) (stoppers s) (last_cb s) (fail_sent s) (oops s).
-Definition set_errq v s := mkState (fsm s) (cfg s) (pctx s) (rctx s) (lc_stopped s) (lc_done s) (runt s) (took s) (reload_mu s) (run_mu s) v (errcap s) (gen s) (kids s) (workers s) (sigs s) (reloaders s) (stoppers s) (last_cb s) (fail_sent s) (oops s).
-Definition set_errcap v s := mkState (fsm s) (cfg s) (pctx s) (rctx s) (lc_stopped s) (lc_done s) (runt s) (took s) (reload_mu s) (run_mu s) (errq s) v (gen s) (kids s) (workers s) (sigs s) (reloaders s) (stoppers s) (last_cb s) (fail_sent s) (oops s).
-Definition set_gen v s := mkState (fsm s) (cfg s) (pctx s) (rctx s) (lc_stopped s) (lc_done s) (runt s) (took s) (reload_mu s) (run_mu s) (errq s) (errcap s) v (kids s) (workers s) (sigs s) (reloaders s) (stoppers s) (last_cb s) (fail_sent s) (oops s).
-Definition set_kids v s := mkState (fsm s) (cfg s) (pctx s) (rctx s) (lc_stopped s) (lc_done s) (runt s) (took s) (reload_mu s) (run_mu s) (errq s) (errcap s) (gen s) v (workers s) (sigs s) (reloaders s) (stoppers s) (last_cb s) (fail_sent s) (oops s).
-Definition set_workers v s := mkState (fsm s) (cfg s) (pctx s) (rctx s) (lc_stopped s) (lc_done s) (runt s) (took s) (reload_mu s) (run_mu s) (errq s) (errcap s) (gen s) (kids s) v (sigs s) (reloaders s) (stoppers s) (last_cb s) (fail_sent s) (oops s).
-Definition set_sigs v s := mkState (fsm s) (cfg s) (pctx s) (rctx s) (lc_stopped s) (lc_done s) (runt s) (took s) (reload_mu s) (run_mu s) (errq s) (errcap s) (gen s) (kids s) (workers s) v (reloaders s) (stoppers s) (last_cb s) (fail_sent s) (oops s).
-Definition set_reloaders v s := mkState (fsm s) (cfg s) (pctx s) (rctx s) (lc_stopped s) (lc_done s) (runt s) (took s) (reload_mu s) (run_mu s) (errq s) (errcap s) (gen s) (kids s) (workers s) (sigs s) v (stoppers s) (last_cb s) (fail_sent s) (oops s).
-Definition set_stoppers v s := mkState (fsm s) (cfg s) (pctx s) (rctx s) (lc_stopped s) (lc_done s) (runt s) (took s) (reload_mu s) (run_mu s) (errq s) (errcap s) (gen s) (kids s) (workers s) (sigs s) (reloaders s) v (last_cb s) (fail_sent s) (oops s).
-Definition set_last_cb v s := mkState (fsm s) (cfg s) (pctx s) (rctx s) (lc_stopped s) (lc_done s) (runt s) (took s) (reload_mu s) (run_mu s) (errq s) (errcap s) (gen s) (kids s) (workers s) (sigs s) (reloaders s) (stoppers s) v (fail_sent s) (oops s).
-Definition set_fail_sent v s := mkState (fsm s) (cfg s) (pctx s) (rctx s) (lc_stopped s) (lc_done s) (runt s) (took s) (reload_mu s) (run_mu s) (errq s) (errcap s) (gen s) (kids s) (workers s) (sigs s) (reloaders s) (stoppers s) (last_cb s) v (oops s).
-Definition set_oops v s := mkState (fsm s) (cfg s) (pctx s) (rctx s) (lc_stopped s) (lc_done s) (runt s) (took s) (reload_mu s) (run_mu s) (errq s) (errcap s) (gen s) (kids s) (workers s) (sigs s) (reloaders s) (stoppers s) (last_cb s) (fail_sent s) v.
+Definition set_fsm v s := mkState v (cfg s) (pctx s) (rctx s) (lc_stopped s) (lc_done s) (runt s) (took s) (reload_mu s) (run_mu s) (errq s) (errcap s) (gen s) (gen_cancelled s) (kids s) (workers s) (sigs s) (reloaders s) (stoppers s) (last_cb s) (fail_sent s) (oops s).
+Definition set_cfg v s := mkState (fsm s) v (pctx s) (rctx s) (lc_stopped s) (lc_done s) (runt s) (took s) (reload_mu s) (run_mu s) (errq s) (errcap s) (gen s) (gen_cancelled s) (kids s) (workers s) (sigs s) (reloaders s) (stoppers s) (last_cb s) (fail_sent s) (oops s).
+Definition set_pctx v s := mkState (fsm s) (cfg s) v (rctx s) (lc_stopped s) (lc_done s) (runt s) (took s) (reload_mu s) (run_mu s) (errq s) (errcap s) (gen s) (gen_cancelled s) (kids s) (workers s) (sigs s) (reloaders s) (stoppers s) (last_cb s) (fail_sent s) (oops s).
+Definition set_rctx v s := mkState (fsm s) (cfg s) (pctx s) v (lc_stopped s) (lc_done s) (runt s) (took s) (reload_mu s) (run_mu s) (errq s) (errcap s) (gen s) (gen_cancelled s) (kids s) (workers s) (sigs s) (reloaders s) (stoppers s) (last_cb s) (fail_sent s) (oops s).
+Definition set_lc_stopped v s := mkState (fsm s) (cfg s) (pctx s) (rctx s) v (lc_done s) (runt s) (took s) (reload_mu s) (run_mu s) (errq s) (errcap s) (gen s) (gen_cancelled s) (kids s) (workers s) (sigs s) (reloaders s) (stoppers s) (last_cb s) (fail_sent s) (oops s).
+Definition set_lc_done v s := mkState (fsm s) (cfg s) (pctx s) (rctx s) (lc_stopped s) v (runt s) (took s) (reload_mu s) (run_mu s) (errq s) (errcap s) (gen s) (gen_cancelled s) (kids s) (workers s) (sigs s) (reloaders s) (stoppers s) (last_cb s) (fail_sent s) (oops s).
+Definition set_runt v s := mkState (fsm s) (cfg s) (pctx s) (rctx s) (lc_stopped s) (lc_done s) v (took s) (reload_mu s) (run_mu s) (errq s) (errcap s) (gen s) (gen_cancelled s) (kids s) (workers s) (sigs s) (reloaders s) (stoppers s) (last_cb s) (fail_sent s) (oops s).
+Definition set_took v s := mkState (fsm s) (cfg s) (pctx s) (rctx s) (lc_stopped s) (lc_done s) (runt s) v (reload_mu s) (run_mu s) (errq s) (errcap s) (gen s) (gen_cancelled s) (kids s) (workers s) (sigs s) (reloaders s) (stoppers s) (last_cb s) (fail_sent s) (oops s).
+Definition set_reload_mu v s := mkState (fsm s) (cfg s) (pctx s) (rctx s) (lc_stopped s) (lc_done s) (runt s) (took s) v (run_mu s) (errq s) (errcap s) (gen s) (gen_cancelled s) (kids s) (workers s) (sigs s) (reloaders s) (stoppers s) (last_cb s) (fail_sent s) (oops s).
+Definition set_run_mu v s := mkState (fsm s) (cfg s) (pctx s) (rctx s) (lc_stopped s) (lc_done s) (runt s) (took s) (reload_mu s) v (errq s) (errcap s) (gen s) (gen_cancelled s) (kids s) (workers s) (sigs s) (reloaders s) (stoppers s) (last_cb s) (fail_sent s) (oops s).
+Definition set_errq v s := mkState (fsm s) (cfg s) (pctx s) (rctx s) (lc_stopped s) (lc_done s) (runt s) (took s) (reload_mu s) (run_mu s) v (errcap s) (gen s) (gen_cancelled s) (kids s) (workers s) (sigs s) (reloaders s) (stoppers s) (last_cb s) (fail_sent s) (oops s).
+Definition set_errcap v s := mkState (fsm s) (cfg s) (pctx s) (rctx s) (lc_stopped s) (lc_done s) (runt s) (took s) (reload_mu s) (run_mu s) (errq s) v (gen s) (gen_cancelled s) (kids s) (workers s) (sigs s) (reloaders s) (stoppers s) (last_cb s) (fail_sent s) (oops s).
+Definition set_gen v s := mkState (fsm s) (cfg s) (pctx s) (rctx s) (lc_stopped s) (lc_done s) (runt s) (took s) (reload_mu s) (run_mu s) (errq s) (errcap s) v (gen_cancelled s) (kids s) (workers s) (sigs s) (reloaders s) (stoppers s) (last_cb s) (fail_sent s) (oops s).
+Definition set_gen_cancelled v s := mkState (fsm s) (cfg s) (pctx s) (rctx s) (lc_stopped s) (lc_done s) (runt s) (took s) (reload_mu s) (run_mu s) (errq s) (errcap s) (gen s) v (kids s) (workers s) (sigs s) (reloaders s) (stoppers s) (last_cb s) (fail_sent s) (oops s).
+Definition set_kids v s := mkState (fsm s) (cfg s) (pctx s) (rctx s) (lc_stopped s) (lc_done s) (runt s) (took s) (reload_mu s) (run_mu s) (errq s) (errcap s) (gen s) (gen_cancelled s) v (workers s) (sigs s) (reloaders s) (stoppers s) (last_cb s) (fail_sent s) (oops s).
+Definition set_workers v s := mkState (fsm s) (cfg s) (pctx s) (rctx s) (lc_stopped s) (lc_done s) (runt s) (took s) (reload_mu s) (run_mu s) (errq s) (errcap s) (gen s) (gen_cancelled s) (kids s) v (sigs s) (reloaders s) (stoppers s) (last_cb s) (fail_sent s) (oops s).
+Definition set_sigs v s := mkState (fsm s) (cfg s) (pctx s) (rctx s) (lc_stopped s) (lc_done s) (runt s) (took s) (reload_mu s) (run_mu s) (errq s) (errcap s) (gen s) (gen_cancelled s) (kids s) (workers s) v (reloaders s) (stoppers s) (last_cb s) (fail_sent s) (oops s).
+Definition set_reloaders v s := mkState (fsm s) (cfg s) (pctx s) (rctx s) (lc_stopped s) (lc_done s) (runt s) (took s) (reload_mu s) (run_mu s) (errq s) (errcap s) (gen s) (gen_cancelled s) (kids s) (workers s) (sigs s) v (stoppers s) (last_cb s) (fail_sent s) (oops s).
+Definition set_stoppers v s := mkState (fsm s) (cfg s) (pctx s) (rctx s) (lc_stopped s) (lc_done s) (runt s) (took s) (reload_mu s) (run_mu s) (errq s) (errcap s) (gen s) (gen_cancelled s) (kids s) (workers s) (sigs s) (reloaders s) v (last_cb s) (fail_sent s) (oops s).
+Definition set_last_cb v s := mkState (fsm s) (cfg s) (pctx s) (rctx s) (lc_stopped s) (lc_done s) (runt s) (took s) (reload_mu s) (run_mu s) (errq s) (errcap s) (gen s) (gen_cancelled s) (kids s) (workers s) (sigs s) (reloaders s) (stoppers s) v (fail_sent s) (oops s).
+Definition set_fail_sent v s := mkState (fsm s) (cfg s) (pctx s) (rctx s) (lc_stopped s) (lc_done s) (runt s) (took s) (reload_mu s) (run_mu s) (errq s) (errcap s) (gen s) (gen_cancelled s) (kids s) (workers s) (sigs s) (reloaders s) (stoppers s) (last_cb s) v (oops s).
+Definition set_oops v s := mkState (fsm s) (cfg s) (pctx s) (rctx s) (lc_stopped s) (lc_done s) (runt s) (took s) (reload_mu s) (run_mu s) (errq s) (errcap s) (gen s) (gen_cancelled s) (kids s) (workers s) (sigs s) (reloaders s) (stoppers s) (last_cb s) (fail_sent s) v.
 
 (* ------------------------------------------------------------------ events and labels *)
 
@@ -184,7 +190,7 @@ Inductive label :=
 | LRunExit | LRunRet (r : oerr)
 (* boot / stopAllRunnables / callback, by Run or by a reloader *)
 | LBootLock (o : owner) | LBootLaunch (o : owner)
-| LStopBegin (o : owner) | LStopJoin (o : owner)
+| LStopBegin (o : owner) | LStopCancel (o : owner) | LStopJoin (o : owner)
 | LCb (o : owner) (r : cbret)
 (* kid goroutines (startRunnable) *)
 | LKRun (i : nat) (c : N) | LKExit (i : nat) (c : N) (e : oerr) | LKSend (i : nat)
@@ -258,7 +264,7 @@ Definition upd_rel (k : nat) (f : reloader -> reloader) (s : state) : state :=
 Definition rpc_is (p q : rpc) : bool :=
   match p, q with
   | RCalled, RCalled | RCb, RCb | RInPlaceSet, RInPlaceSet | RStopBegin, RStopBegin
-  | RStopWait, RStopWait | RSetCfg, RSetCfg | RBootLock, RBootLock | RBootLaunch, RBootLaunch
+  | RStopWait, RStopWait | RStopDrain, RStopDrain | RSetCfg, RSetCfg | RBootLock, RBootLock | RBootLaunch, RBootLaunch
   | RFinish, RFinish | RRet, RRet | RDone, RDone => true
   | RInPlace i, RInPlace j => Nat.eqb i j
   | _, _ => false
@@ -310,16 +316,31 @@ Definition at_stop_wait (o : owner) (s : state) : bool :=
   | ORun => match runt s with TStopWait => true | _ => false end
   | ORel k => match rel_pc k s with Some RStopWait => true | _ => false end
   end.
+Definition at_stop_drain (o : owner) (s : state) : bool :=
+  match o with
+  | ORun => match runt s with TStopDrain => true | _ => false end
+  | ORel k => match rel_pc k s with Some RStopDrain => true | _ => false end
+  end.
 Definition set_opc (o : owner) (tp : tpc) (rp : rpc) (s : state) : state :=
   match o with
   | ORun => set_runt tp s
   | ORel k => upd_rel k (set_rpc rp) s
   end.
 
+(* is the context handed to this child goroutine cancelled? *)
+Definition kctx (P : params) (k : kid) (s : state) : bool :=
+  rctx s || (fix_stale P && Nat.leb (k_gen k) (gen_cancelled s)).
+
+(* every goroutine of the cancelled generations has finished *)
+Definition kdone (k : kid) : bool := match k_pc k with KDone => true | _ => false end.
+Definition drained (s : state) : bool :=
+  forallb (fun k => negb (Nat.leb (k_gen k) (gen_cancelled s)) || kdone k) (kids s).
+
 (* may a Run of child c return e now?  (the child's contract) *)
-Definition exit_ok (P : params) (c : N) (e : oerr) (s : state) : bool :=
+Definition exit_ok (P : params) (k : kid) (e : oerr) (s : state) : bool :=
+  let c := k_child k in
   match c_exit (spec_of P c) with
-  | OnSignal => (mem_N c (sigs s) || rctx s) && benign e
+  | OnSignal => (mem_N c (sigs s) || kctx P k s) && benign e
   | Free => true
   | Never => false
   end.
@@ -439,8 +460,12 @@ Definition step (P : params) (s : state) (l : label) : option state :=
       Some (set_opc o TStopWait RStopWait
               (set_workers (workers s2 ++ spawn_workers o (entries_of s)) s2))
     else None
+  | LStopCancel o =>
+    (* fix_stale: wg.Wait() returned; genCancel() *)
+    if fix_stale P && at_stop_wait o s && all_done o s
+    then Some (set_opc o TStopDrain RStopDrain (set_gen_cancelled (gen s) s)) else None
   | LStopJoin o =>
-    if at_stop_wait o s && all_done o s then
+    if (if fix_stale P then at_stop_drain o s && drained s else at_stop_wait o s && all_done o s) then
       let s1 := set_run_mu None s in
       match o with
       | ORun =>
@@ -497,7 +522,7 @@ Definition step (P : params) (s : state) (l : label) : option state :=
     | Some k =>
       match k_pc k with
       | KInRun =>
-        if N.eqb (k_child k) c && exit_ok P c e s
+        if N.eqb (k_child k) c && exit_ok P k e s
         then Some (set_kids (upd i (set_kpc (if benign e then KDone else KExited e)) (kids s)) s)
         else None
       | _ => None
@@ -736,7 +761,7 @@ Definition owners (s : state) : list owner := ORun :: map ORel (seq 0 (length (r
 (* candidate internal labels *)
 Definition taus (s : state) : list label :=
   [LRunBegin; LToRunning; LSelCtx; LSelStop; LSelErr; LTransIf; LTearLock; LToStopped; LRunExit]
-  ++ flat_map (fun o => [LBootLock o; LBootLaunch o; LStopBegin o; LStopJoin o]) (owners s)
+  ++ flat_map (fun o => [LBootLock o; LBootLaunch o; LStopBegin o; LStopCancel o; LStopJoin o]) (owners s)
   ++ map LKSend (seq 0 (length (kids s)))
   ++ map LWUnblock (seq 0 (length (workers s)))
   ++ flat_map (fun k => [LRlLock k; LRlSetInPlace k; LRlSkip k; LRlSetCfg k; LRlFinish k])
@@ -790,7 +815,7 @@ Definition ktpc (p : tpc) : list N :=
   | TIdle => [0] | TCalled => [1] | TBootLock => [2] | TBootCb => [3] | TBootLaunch => [4]
   | TToRunning => [5] | TSelect => [6] | TTransIf => [7] | TTearLock => [8] | TStopBegin => [9]
   | TStopWait => [10] | TToStopped => [11] | TRet r => 12 :: koerr r | TDone r => 13 :: koerr r
-  | TOut r => 14 :: koerr r
+  | TOut r => 14 :: koerr r | TStopDrain => [15]
   end%N.
 Definition kkpc (p : kpc) : list N :=
   match p with KLaunched => [0] | KInRun => [1] | KExited e => 2 :: koerr e | KDone => [3] end%N.
@@ -800,7 +825,7 @@ Definition krpc (p : rpc) : list N :=
   match p with
   | RCalled => [0] | RCb => [1] | RInPlaceSet => [2] | RInPlace i => [3; kn i] | RStopBegin => [4]
   | RStopWait => [5] | RSetCfg => [6] | RBootLock => [7] | RBootLaunch => [8] | RFinish => [9]
-  | RRet => [10] | RDone => [11]
+  | RRet => [10] | RDone => [11] | RStopDrain => [12]
   end%N.
 Definition kspc (p : spc) : N := match p with SCalled => 0 | SWaiting => 1 | SDone => 2 end%N.
 Definition krpath (p : rpath) : N :=
@@ -808,7 +833,7 @@ Definition krpath (p : rpath) : N :=
 
 Definition key (s : state) : list N :=
   [kfsm (fsm s); kb (pctx s); kb (rctx s); kb (lc_stopped s); kb (lc_done s);
-   kb (fail_sent s); kb (oops s); kn (errcap s); kn (gen s)]
+   kb (fail_sent s); kb (oops s); kn (errcap s); kn (gen s); kn (gen_cancelled s)]
   ++ kocfg (cfg s) ++ ktpc (runt s)
   ++ match took s with None => [0%N] | Some e => 1%N :: kerr e end
   ++ koowner (reload_mu s) ++ koowner (run_mu s)
